@@ -121,7 +121,11 @@ void property(const pbt::Tape& t, pbt::Ctx& ctx) {
         Vector zero(nu); zero = 0; std::vector<SpatialVec> A0 = refdyn::referenceAccelerations(m.sys, matter, s, zero);
         Vector bias = refdyn::referenceResidual(J, si, V, A0, F, f);     // = bias - f - J'F
         Vector eom = Mref * udot + bias;
-        if (!skipFD) for (int i = 0; i < nu; ++i) if (!(std::abs(eom[i]) <= 1e-7 * sc0 + tol0)) { ctx.fail("M_ref*udot + bias_ref - f - J'F = " + S(eom[i]) + " at mobility " + std::to_string(i) + " (scale " + S(sc0) + ")"); return; }
+        // M*udot and the bias can each be large and cancel (free body with an offset outboard frame: the Coriolis term of the
+        // bias is balanced by udot while the net body acceleration, and with it sc0, is ~0): the finite-difference error of the
+        // reference scales with the uncancelled terms
+        Real scTerms = 0; for (int i = 0; i < nu; ++i) { Real a = std::abs(bias[i]); for (int j = 0; j < nu; ++j) a += std::abs(Mref(i, j) * udot[j]); scTerms = std::max(scTerms, a); }
+        if (!skipFD) for (int i = 0; i < nu; ++i) if (!(std::abs(eom[i]) <= 1e-7 * std::max(sc0, scTerms) + tol0)) { ctx.fail("M_ref*udot + bias_ref - f - J'F = " + S(eom[i]) + " at mobility " + std::to_string(i) + " (scale " + S(sc0) + ")"); return; }
         // returned A_GB consistent with calcBodyAccelerationFromUDot(udot)
         Vector_<SpatialVec> A2; matter.calcBodyAccelerationFromUDot(s, udot, A2);
         for (int b = 0; b < NB; ++b) { Real d = (A2[b][0] - Afd[b][0]).norm() + (A2[b][1] - Afd[b][1]).norm(), sc = 1 + Afd[b][0].norm() + Afd[b][1].norm(); if (!(d <= 1e6 * eps * sc * kappa)) { ctx.fail("A_GB from forward dynamics differs from calcBodyAccelerationFromUDot(udot) at body " + std::to_string(b) + " by " + S(d)); return; } }
